@@ -25,7 +25,7 @@ from ..core import f2h
 from . import c09_real as R
 
 PID = "C09"
-MODULES = ["OpacusLean.Props.C09"]
+MODULES = ["OpacusLean.Props.C09", "OpacusLean.Props.C08"]
 THEOREMS = [
     "Opacus.C09.inclusion_pointwise",
     "Opacus.C09.batch_wellformed",
@@ -47,6 +47,8 @@ THEOREMS = [
     "Opacus.C09.grid_inclusion_probability",
     # the tie to the source: Generated/SamplerArith.lean is re-translated from utils/uniform_sampler.py on every run
     "Opacus.C09.generated_num_samples_eq_model",
+    # the tie to the source: Generated/FloatBookkeeping.lean is re-translated from privacy_engine.py, accountants/utils.py, utils/uniform_sampler.py on every run
+    "Opacus.C08.generated_bookkeeping_eq_model",
 ]
 RULE = (
     "sampler case = (N, sample rate or (batch size -> L), seed, epochs, mode in {sampler, loader-sampler, loader}) drawn from VERIF_SEED; "
@@ -325,6 +327,8 @@ def regenerate(ctx):
     from .. import regen
     from . import c09_trans as T
     regen.regenerate(ctx, T, "Opacus.Generated.Sampler", "utils/uniform_sampler.py")
+    from . import c08_trans as T8
+    regen.regenerate(ctx, T8, "Opacus.Generated.Float", "float bookkeeping (privacy_engine.py, accountants/utils.py, utils/uniform_sampler.py)")
 
 
 def run(ctx):
